@@ -234,9 +234,55 @@ def target_twin(c1: int, c2: int, c3: int) -> bool:
     return not (environ["QUERY_STRING"] != "" and "%" in t)
 
 
+# ---- 3b. SCRIPT_NAME from the environment (raw_env / --env puts it into os.environ when the arbiter is set up, i.e. after
+#          gunicorn.http.wsgi has been imported) -----------------------------------------------------------------------------
+SCRIPTS = ["", "/app", "/app/", "/a%20b"]
+PATHS = ["/app/x", "/app", "/app/", "/apple/y", "/other", "/app/caf%E9", "/a%20b/c"]
+
+
+def script_name(si: int, pi: int, si2: int) -> bool:
+    """
+    pre: 0 <= si < len(SCRIPTS) and 0 <= pi < len(PATHS) and 0 <= si2 < len(SCRIPTS)
+    post: __return__
+    """
+    import os
+    from gunicorn.http.errors import ConfigurationProblem
+    si, pi, si2 = pick(si, 0, len(SCRIPTS) - 1), pick(pi, 0, len(PATHS) - 1), pick(si2, 0, len(SCRIPTS) - 1)
+    saved = os.environ.get("SCRIPT_NAME")
+    try:
+        # two requests: the configured value may change between them (a reload applies a new raw_env)
+        for sn in (SCRIPTS[si], SCRIPTS[si2]):
+            if sn:
+                os.environ["SCRIPT_NAME"] = sn
+            else:
+                os.environ.pop("SCRIPT_NAME", None)
+            path = PATHS[pi]
+            r = mk_req()
+            r.parse_request_line(b"GET " + path.encode("latin-1") + b"?q=1 HTTP/1.1")
+            try:
+                environ = env_for(r)
+            except ConfigurationProblem:
+                if path.startswith(sn):
+                    return False
+                continue
+            if not path.startswith(sn):
+                return False                      # a path outside the configured prefix cannot be split
+            if environ["SCRIPT_NAME"] != sn or environ["PATH_INFO"] != ER.percent_decode_latin1(path[len(sn):]):
+                return False
+            if environ["RAW_URI"] != path + "?q=1" or environ["QUERY_STRING"] != "q=1":
+                return False
+    finally:
+        if saved is None:
+            os.environ.pop("SCRIPT_NAME", None)
+        else:
+            os.environ["SCRIPT_NAME"] = saved
+    return True
+
+
 # ---- 4. method / protocol ---------------------------------------------------------------------------------------------------
 METHODS = ["GET", "POST", "OPTIONS", "M-SEARCH", "PRI", "X_Y", "PURGE", "get", "G"]
-VERS = ["HTTP/1.0", "HTTP/1.1", "HTTP/1.9", "HTTP/2.0", "HTTP/0.9", "HTTP/1.10", "http/1.1"]
+VERS = ["HTTP/1.0", "HTTP/1.1", "HTTP/1.9", "HTTP/2.0", "HTTP/0.9", "HTTP/1.10", "http/1.1", "HTTP/1.01", "HTTP/01.1", "HTTP/1.00",
+        "HTTP/1.1 ", "HTTP/1."]
 
 
 def proto(mi: int, vi: int) -> bool:
@@ -276,5 +322,7 @@ OBLIGATIONS = [
              "targets starting with a control character + 1 (2) representatives "
              "(letters, / ? % hex, : @ ; . 0xE9 * = & TAB CR LF 0x01 0x7F [ + backslash)"),
     Ob("C15.target.twin", "target_twin", cases=[{"form": 0, "n": 3}], expect="refute", timeout=300),
-    Ob("C15.proto", "proto", timeout=300, bound="9 methods x 7 version spellings"),
+    Ob("C15.proto", "proto", timeout=300, bound="9 methods x 12 version spellings (incl. leading zeros, trailing SP)"),
+    Ob("C15.script_name", "script_name", timeout=300,
+       bound="SCRIPT_NAME set in os.environ after import from 4 values (changing between two requests) x 7 request paths"),
 ]
